@@ -104,12 +104,14 @@ static void trial(vh::Ctx& ctx, uint64_t idx, int T, int focus_cls) {
   std::unique_ptr<Shared> B;
   try { B.reset(new Shared(P)); } catch (const std::exception& e) { ctx.herr(std::string("constructing second object failed: ") + e.what()); return; }
   uint64_t ph = vh::hmix(vh::hmix(vh::hmix(1, P.a), P.f), P.coeffseed);
+  uint64_t nmis = 0;
   for (int t = 0; t < T; ++t)
     for (int k = 0; k < nops; ++k) {
       Rec& rc = recs[t][k]; const Op& op = ops[rc.op]; Res alone; exec(op, B.get(), rc.seed, alone);
       ctx.count(op.name, vh::hmix(vh::hmix(ph, (uint64_t)rc.op), rc.seed));
       if (rc.r.exc) ctx.event("exception-result/" + op.cls);
       if (!alone.same(rc.r)) {
+        ++nmis;
         int fd = alone.firstdiff(rc.r); char hb[40], ha[40]; hb[0] = ha[0] = 0;
         if (fd >= 0) { uint64_t u, v; std::memcpy(&u, &rc.r.v[fd], 8); std::memcpy(&v, &alone.v[fd], 8);
           std::snprintf(hb, sizeof hb, "%016llx", (unsigned long long)u); std::snprintf(ha, sizeof ha, "%016llx", (unsigned long long)v); }
@@ -119,6 +121,8 @@ static void trial(vh::Ctx& ctx, uint64_t idx, int T, int focus_cls) {
                  .str("concurrent_str", rc.r.s).str("alone_str", alone.s).i("mode", mode).obj("params", params_json(P)));
       }
     }
+  ctx.obs("determinism: calls per trial whose concurrent result differs from the result alone (count; tolerance 0)", (double)nmis,
+          vh::J().i("threads", T).i("ops_per_thread", nops));
   // ---- overlap evidence: calls of different threads whose [begin,end] sequence intervals intersect
   {
     struct Iv { uint64_t b, e; uint32_t op; int t; };
@@ -154,11 +158,18 @@ int main(int argc, char** argv) {
   register_all();
   for (int i = 1; i < argc; ++i) if (std::string(argv[i]) == "--list-ops") {
     for (auto& o : registry()) std::printf("%s\t%s\t%g\t%d\n", o.name.c_str(), o.cls.c_str(), o.w, (int)o.needs_shared); return 0; }
+  C14_HG_IGNORE(&g_seq, sizeof g_seq); C14_HG_IGNORE(&g_arrived, sizeof g_arrived); C14_HG_IGNORE(&g_go, sizeof g_go);   // the harness's own atomics
   c14f::TmpDir tmp;
   if (tmp.path.empty()) { std::fprintf(stderr, "cannot create scratch dir\n"); return 2; }
   g_dir = tmp.path;
   for (auto& o : registry()) if (std::find(g_classes.begin(), g_classes.end(), o.cls) == g_classes.end()) g_classes.push_back(o.cls);
   const uint64_t ncls = g_classes.size();
+  if (std::getenv("VERIF_C14_PRETOUCH")) {
+    // helgrind pass only: helgrind does not model the C++11 static-initialisation guards, so every function-local
+    // static / built-in singleton is initialised here by the main thread before any worker thread exists
+    // (concurrent first touch is judged by ThreadSanitizer in the C14_first processes instead).
+    for (auto& o : registry()) if (!o.needs_shared) for (uint64_t k = 0; k < 25; ++k) { Res r; exec(o, nullptr, vh::hmix(77, k), r); }
+  }
   std::vector<vh::Section> S;
   // directed: every class is the focus once (quick) / with every thread count (thorough)
   S.push_back(vh::Section{"focus", ncls, 4 * ncls, false, [ncls](vh::Ctx& c, uint64_t i) {
